@@ -414,7 +414,11 @@ func (p *printer) exprRaw(e Expr) {
 		p.w("]")
 	case *Member:
 		p.expr(n.X, precPostfix)
-		p.w("." + n.Name)
+		if n.Op != "" {
+			p.w(n.Op + n.Name)
+		} else {
+			p.w("." + n.Name)
+		}
 	case *ListLit:
 		p.w("[")
 		for i, x := range n.Elems {
